@@ -233,7 +233,7 @@ pub fn c07_bans(cx: &mut Ctx) {
             if w1 - w0 > bound {
                 cx.v("C07", "detection_bound_exceeded", "C07/detection_bound_exceeded", s.done_seq, format!("client {} step {} took {} ms; bound from the configured timeouts is {} ms", c.id, s.idx, (w1 - w0) / 1000, bound / 1000));
             }
-            let usable = |hst: &String| -> bool { t.healthy(hst, w0.saturating_sub(20_000), w1) && (bt.unbanned_throughout(hst, w0.saturating_sub(6_000), w1) || (all_replicas_banned_at(w0.saturating_sub(6_000)) && !t.admin_touched(hst, w0, w1))) };
+            let usable = |hst: &String| -> bool { t.healthy(hst, w0.saturating_sub(20_000), w1) && (bt.unbanned_throughout(hst, w0.saturating_sub(6_000), w1) || (all_replicas_banned_at(w0.saturating_sub(6_000)) && !t.replicas().iter().any(|r| t.admin_touched(r, w0.saturating_sub(6_000), w1)))) };
             if failed {
                 if self_inflicted {
                     cx.probe("c07_break_mid_statement");
